@@ -389,10 +389,13 @@ func (c *HostClient) Do(ctx context.Context, req *protocol.Request, resp *protoc
 	}
 
 	atomic.AddInt32(&c.pendingRequests, 1)
+	vhook("do.enter", c, nil, nil)
 	req.Options().StartRequest()
 	for {
+		vgate("do.top")
 		select {
 		case <-ctx.Done():
+			vhook("do.ctxdone", c, nil, nil)
 			req.CloseBodyStream() //nolint:errcheck
 			return ctx.Err()
 		default:
@@ -418,6 +421,7 @@ func (c *HostClient) Do(ctx context.Context, req *protocol.Request, resp *protoc
 		// Apache and nginx usually do this.
 		if canIdempotentRetry && client.DefaultRetryIf(req, resp, err) && errors.Is(err, errs.ErrBadPoolConn) {
 			connAttempts++
+			vhook("do.retry", c, nil, nil)
 			continue
 		}
 
@@ -440,6 +444,7 @@ func (c *HostClient) Do(ctx context.Context, req *protocol.Request, resp *protoc
 		time.Sleep(wait)
 	}
 	atomic.AddInt32(&c.pendingRequests, -1)
+	vhook("do.exit", c, nil, nil)
 
 	if err == io.EOF {
 		err = errConnectionClosed
@@ -801,6 +806,7 @@ func (c *HostClient) acquireConn(dialTimeout time.Duration) (cc *clientConn, inP
 	startCleaner := false
 
 	var n int
+	vgate("acq.lock")
 	c.connsLock.Lock()
 	n = len(c.conns)
 	if n == 0 {
@@ -811,6 +817,7 @@ func (c *HostClient) acquireConn(dialTimeout time.Duration) (cc *clientConn, inP
 		if c.connsCount < maxConns {
 			c.connsCount++
 			createConn = true
+			vhookL("acq.create", c, nil, nil)
 			if !c.connsCleanerRun {
 				startCleaner = true
 				c.connsCleanerRun = true
@@ -821,6 +828,10 @@ func (c *HostClient) acquireConn(dialTimeout time.Duration) (cc *clientConn, inP
 		cc = c.conns[n]
 		c.conns[n] = nil
 		c.conns = c.conns[:n]
+		vhookL("acq.pop", c, cc, nil)
+	}
+	if cc == nil && !createConn {
+		vhookL("acq.none", c, nil, nil)
 	}
 	c.connsLock.Unlock()
 
@@ -854,10 +865,13 @@ func (c *HostClient) acquireConn(dialTimeout time.Duration) (cc *clientConn, inP
 		// the dialtimeout in request options.
 		c.queueForIdle(w)
 
+		vgate("wait.select")
 		select {
 		case <-w.ready:
+			vhook("wait.ready", c, w.conn, w)
 			return w.conn, true, w.err
 		case <-tc.C:
+			vhook("wait.timeout", c, nil, w)
 			return nil, true, errs.ErrNoFreeConns
 		}
 	}
@@ -866,17 +880,21 @@ func (c *HostClient) acquireConn(dialTimeout time.Duration) (cc *clientConn, inP
 		go c.connsCleaner()
 	}
 
+	vgate("dial")
 	conn, err := c.dialHostHard(dialTimeout)
 	if err != nil {
+		vhook("dial.fail", c, nil, nil)
 		c.decConnsCount()
 		return nil, false, err
 	}
 	cc = acquireClientConn(conn)
+	vhook("dial.ok", c, cc, nil)
 
 	return cc, false, nil
 }
 
 func (c *HostClient) queueForIdle(w *wantConn) {
+	vgate("queue.lock")
 	c.connsLock.Lock()
 	defer c.connsLock.Unlock()
 	if c.connsWait == nil {
@@ -884,17 +902,21 @@ func (c *HostClient) queueForIdle(w *wantConn) {
 	}
 	c.connsWait.clearFront()
 	c.connsWait.pushBack(w)
+	vhookL("wait.queue", c, nil, w)
 }
 
 func (c *HostClient) dialConnFor(w *wantConn) {
+	vgate("bg.dial")
 	conn, err := c.dialHostHard(c.DialTimeout)
 	if err != nil {
+		vhook("bg.dial.fail", c, nil, w)
 		w.tryDeliver(nil, err)
 		c.decConnsCount()
 		return
 	}
 
 	cc := acquireClientConn(conn)
+	vhook("bg.dial.ok", c, cc, w)
 	delivered := w.tryDeliver(cc, nil)
 	if !delivered {
 		// not delivered, return idle connection
@@ -907,12 +929,14 @@ func (c *HostClient) dialConnFor(w *wantConn) {
 // "keep-alive" state. It does not interrupt any connections currently
 // in use.
 func (c *HostClient) CloseIdleConnections() {
+	vgate("closeidle.lock")
 	c.connsLock.Lock()
 	scratch := append([]*clientConn{}, c.conns...)
 	for i := range c.conns {
 		c.conns[i] = nil
 	}
 	c.conns = c.conns[:0]
+	vhookL("closeidle", c, nil, nil)
 	c.connsLock.Unlock()
 
 	for _, cc := range scratch {
@@ -938,6 +962,7 @@ func (c *HostClient) connsCleaner() {
 		currentTime := time.Now()
 
 		// Determine idle connections to be closed.
+		vgate("clean.lock")
 		c.connsLock.Lock()
 		conns := c.conns
 		n := len(conns)
@@ -959,6 +984,7 @@ func (c *HostClient) connsCleaner() {
 				conns[i] = nil
 			}
 			c.conns = conns[:m]
+			vhookL("clean.sweep", c, nil, nil)
 		}
 		c.connsLock.Unlock()
 
@@ -984,6 +1010,7 @@ func (c *HostClient) connsCleaner() {
 }
 
 func (c *HostClient) closeConn(cc *clientConn) {
+	vhook("close", c, cc, nil)
 	c.decConnsCount()
 	cc.c.Close()
 	releaseClientConn(cc)
@@ -991,12 +1018,15 @@ func (c *HostClient) closeConn(cc *clientConn) {
 
 func (c *HostClient) decConnsCount() {
 	if c.MaxConnWaitTimeout <= 0 {
+		vgate("dec.lock")
 		c.connsLock.Lock()
 		c.connsCount--
+		vhookL("dec.count", c, nil, nil)
 		c.connsLock.Unlock()
 		return
 	}
 
+	vgate("dec.lock")
 	c.connsLock.Lock()
 	defer c.connsLock.Unlock()
 	dialed := false
@@ -1004,6 +1034,7 @@ func (c *HostClient) decConnsCount() {
 		for q.len() > 0 {
 			w := q.popFront()
 			if w.waiting() {
+				vhookL("dec.handoff", c, nil, w)
 				go c.dialConnFor(w)
 				dialed = true
 				break
@@ -1012,6 +1043,7 @@ func (c *HostClient) decConnsCount() {
 	}
 	if !dialed {
 		c.connsCount--
+		vhookL("dec.count", c, nil, nil)
 	}
 }
 
@@ -1037,13 +1069,16 @@ var clientConnPool sync.Pool
 func (c *HostClient) releaseConn(cc *clientConn) {
 	cc.lastUseTime = time.Now()
 	if c.MaxConnWaitTimeout <= 0 {
+		vgate("rel.lock")
 		c.connsLock.Lock()
 		c.conns = append(c.conns, cc)
+		vhookL("rel.idle", c, cc, nil)
 		c.connsLock.Unlock()
 		return
 	}
 
 	// try to deliver an idle connection to a *wantConn
+	vgate("rel.lock")
 	c.connsLock.Lock()
 	defer c.connsLock.Unlock()
 	delivered := false
@@ -1052,12 +1087,16 @@ func (c *HostClient) releaseConn(cc *clientConn) {
 			w := q.popFront()
 			if w.waiting() {
 				delivered = w.tryDeliver(cc, nil)
+				if delivered {
+					vhookL("rel.deliver", c, cc, w)
+				}
 				break
 			}
 		}
 	}
 	if !delivered {
 		c.conns = append(c.conns, cc)
+		vhookL("rel.idle", c, cc, nil)
 	}
 }
 
@@ -1240,6 +1279,7 @@ func (w *wantConn) tryDeliver(conn *clientConn, err error) bool {
 	if w.conn != nil || w.err != nil {
 		return false
 	}
+	vhook("want.deliver", nil, conn, w)
 	w.conn = conn
 	w.err = err
 	if w.conn == nil && w.err == nil {
@@ -1252,7 +1292,9 @@ func (w *wantConn) tryDeliver(conn *clientConn, err error) bool {
 // cancel marks w as no longer wanting a result (for example, due to cancellation).
 // If a connection has been delivered already, cancel returns it with c.releaseConn.
 func (w *wantConn) cancel(c *HostClient, err error) {
+	vgate("cancel.lock")
 	w.mu.Lock()
+	vhook("want.cancel", c, w.conn, w)
 	if w.conn == nil && w.err == nil {
 		close(w.ready) // catch misbehavior in future delivery
 	}
